@@ -212,6 +212,14 @@ class GaussOffset(GaussU):
         return GaussU.true_log_evidence.fget(self) + self.offset
 
 
+class GaussUNoBoundsCheck(GaussU):
+    """GaussU whose log_prior is the constant density without a bounds test (a common way to write a uniform prior): staying inside the box is then entirely up to
+    the samplers' own bounds / unit-hypercube checks."""
+
+    def _lp(self, x):
+        return np.zeros(np.shape(x[self.names[0]]), dtype=float) - self._logvol
+
+
 class GaussHardCut(GaussU):
     """Gaussian likelihood that is exactly zero (log L = -inf) over about 80 % of the prior volume (x0 < 0.5 or |x1| > 2): a legitimate input, nessai only warns."""
 
@@ -559,6 +567,8 @@ def make(name, **kw):
         return GaussAsymReordered(**kw)
     if name == "G2h":
         return GaussHardCut(2, **kw)
+    if name == "G2k":
+        return GaussUNoBoundsCheck(2, mu=[3.2, -3.0], **kw)   # posterior mass near two faces of the box, so proposals do reach beyond it
     if name == "G2o":
         return GaussOffset(-2000.0, **kw)
     if name == "G2p":
